@@ -280,7 +280,33 @@ def mul_task(p, cfg, rec):
         q_main = z3.And(rng, q_main)
         q_can = z3.And(rng, q_can)
         p.note('FPMult: product node abstracted by a fresh %d-bit variable in [2**46,(2**24-1)**2]' % mt.size())
-    p.prove('|R - a*b| < 1 ulp(R), sign = sa^sb (exact product normal)', q_main, inputs=V, replay=replay, canary=q_can)
+    q_exact = z3.And(prod_normal, z3.Not(ok))
+    name = '|R - a*b| < 1 ulp(R), sign = sa^sb (exact product normal)'
+    if len(muls) == 1:
+        ra, _m = p.satisfiable([q_main])
+        if ra == z3.unsat:
+            # unsat for every value of the abstracted product => unsat for the real products
+            p.prove(name + ' [product abstracted]', q_main, inputs=V, replay=replay, canary=q_can)
+        else:
+            # The abstraction admits a candidate product.  A full 24x24 symbolic product is out of reach for
+            # bit-blasting (probed: > 300 s), so the exact query is decided with ONE mantissa symbolic and the
+            # other fixed to each value of a boundary + seeded set (then the product is a multiplication by a
+            # constant).  Any hit is replayed; no hit leaves the obligation inconclusive, never discharged.
+            p.note('FPMult: abstract query %s, searching with one mantissa enumerated' % ra)
+            rnd = p.rng
+            cands = [0, 1, 2, (1 << 23) - 1, (1 << 23) - 2, 1 << 22, (1 << 22) - 1, 0x2AAAAA, 0x555555, 0x7FFFFE]
+            cands += [rnd.getrandbits(23) for _ in range(30 if p.tier == 'quick' else 300)]
+            hit = False
+            for cm in cands:
+                r_ = p.prove(name + ' [mantissa of b fixed to 0x%06x, everything else symbolic]' % cm,
+                             z3.And(q_exact, z3.Extract(22, 0, b) == cm), inputs=V, replay=replay, timeout_s=30)
+                if r_ is False:
+                    hit = True
+                    break
+            if not hit:
+                p.inconclusive(name, 'abstract product query satisfiable, no concrete witness found with %d enumerated mantissas' % len(cands))
+    else:
+        p.prove(name, q_exact, inputs=V, replay=replay, canary=z3.And(prod_normal, ok), timeout_s=(300 if p.tier == 'quick' else 1800))
     # commutativity
     s3, d3, V3 = sim_block(build, rec, ['b', 'a'])   # fresh() names: same z3 constants 'a','b'
     # drive the second instance with swapped operands
